@@ -27,6 +27,7 @@ import numpy as np
 import pandas as pd
 
 import common
+import linecov
 
 RULE = ("an enable mask is 18 bits (bias x3, bias_walk x3, noise x3, scale_misal 3x3 row-major); "
         "enabled entries get random positive dyadic values k/8 (k/16 for scale_misal), disabled ones 0 "
@@ -41,6 +42,7 @@ XYZ = 'xyz'
 DT16 = [1, 4, 16, 64]                    # dt * 16 : 1/16, 1/4, 1, 4  (square roots 1/4, 1/2, 1, 2)
 GYRO = ['gyro_x', 'gyro_y', 'gyro_z']
 ACCEL = ['accel_x', 'accel_y', 'accel_z']
+COQCHK_NOREC = False                     # stdlib-only development: recursive re-check (see report)
 TOL_DEN = 2 ** 36                        # tolerance 2^-36 ~ 1.5e-11 for np.linalg.solve results
 
 
@@ -621,6 +623,116 @@ def imu_check(seed):
 
 
 # ----------------------------------------------------------------------------------------------
+# line coverage of the anchored code, and the fixed corpus that reaches every branch deterministically
+
+# lines that may stay unreached, each with the reason
+ALLOW = {
+    'assert False': "EstimationModel.correct_increments: reached only for an `increments` that is neither a "
+                    "DataFrame nor a Series (no such input exists in the model or in pyins' own callers)",
+}
+
+
+def covered_functions():
+    from pyins import inertial_sensor as m
+    E, P = m.EstimationModel, m.Parameters
+    return {
+        'EstimationModel.__init__': E.__init__, 'EstimationModel._verify_param': E._verify_param,
+        'EstimationModel.output_matrix': E.output_matrix, 'EstimationModel.reset_estimates': E.reset_estimates,
+        'EstimationModel.update_estimates': E.update_estimates, 'EstimationModel.get_estimates': E.get_estimates,
+        'EstimationModel.correct_increments': E.correct_increments,
+        'Parameters.__init__': P.__init__, 'Parameters._verify_parameter': P._verify_parameter,
+        'Parameters.from_EstimationModel': P.from_EstimationModel, 'Parameters.apply': P.apply,
+        'apply_imu_parameters': m.apply_imu_parameters,
+    }
+
+
+def corpus_checks():
+    """Fixed cases that enter every branch of the covered functions, including the argument-validation
+    raises and the None / scalar argument forms which the harness otherwise translates itself.
+    Returns a list of messages (a failure here breaks the tie, it is not a property violation)."""
+    from pyins.inertial_sensor import EstimationModel, Parameters, apply_imu_parameters
+    bad = []
+
+    def raises(exc, f, what):
+        try:
+            f()
+        except exc:
+            return
+        except Exception as e:                                         # noqa
+            bad.append(f"{what}: raised {type(e).__name__} instead of {exc.__name__}")
+            return
+        bad.append(f"{what}: did not raise {exc.__name__}")
+    # None arguments = everything disabled
+    e0 = EstimationModel()
+    if (e0.n_states, e0.n_noises, e0.n_output_noises, e0.states) != (0, 0, 0, []) or \
+            np.shape(e0.output_matrix()) != (3, 0) or np.shape(e0.P) != (0, 0):
+        bad.append("EstimationModel() is not the empty model")
+    # scalar arguments = the same value on every axis / entry
+    es = EstimationModel(bias_sd=0.5, noise=0.25, bias_walk=0.125, scale_misal_sd=0.0625)
+    ea = EstimationModel(bias_sd=[0.5] * 3, noise=[0.25] * 3, bias_walk=[0.125] * 3,
+                         scale_misal_sd=np.full((3, 3), 0.0625))
+    for k in ('states', 'n_states', 'n_noises', 'n_output_noises'):
+        if getattr(es, k) != getattr(ea, k):
+            bad.append(f"scalar arguments: {k} differs from the array form")
+    for k in ('P', 'q', 'v', 'G', 'H', 'J', 'F'):
+        if not np.array_equal(getattr(es, k), getattr(ea, k)):
+            bad.append(f"scalar arguments: {k} differs from the array form")
+    if es.states != oracle_states(np.full(3, 0.5), np.full((3, 3), 0.0625)):
+        bad.append("scalar arguments: unexpected states")
+    raises(ValueError, lambda: EstimationModel(bias_sd=[1.0, 2.0]), "bias_sd of shape (2,)")
+    raises(ValueError, lambda: EstimationModel(scale_misal_sd=[1.0, 2.0, 3.0]), "scale_misal_sd of shape (3,)")
+    raises(ValueError, lambda: EstimationModel(bias_sd=[0, 1, 1], bias_walk=[1, 0, 0]), "walk without bias")
+    # output_matrix: H itself / readings required / 1-d / stacked
+    eb = EstimationModel(bias_sd=[1, 0, 2])
+    if eb.output_matrix() is not eb.H and not np.array_equal(eb.output_matrix(), eb.H):
+        bad.append("output_matrix() without scale/misalignment is not H")
+    raises(ValueError, lambda: es.output_matrix(), "output_matrix() without readings")
+    r1 = np.array([1.0, 2.0, 4.0])
+    H1 = es.output_matrix(r1)
+    H2 = es.output_matrix(np.array([r1, 2 * r1]))
+    if np.shape(H1) != (3, 12) or np.shape(H2) != (2, 3, 12) or not np.array_equal(H2[0], H1):
+        bad.append("output_matrix 1-d / stacked forms disagree")
+    # state machine, both container types, length error
+    x = np.arange(12) / 16.0
+    es.update_estimates(x)
+    es.update_estimates(x)
+    if not np.array_equal(es.get_estimates().values, 2 * x):
+        bad.append("update twice != 2 x")
+    raises(ValueError, lambda: es.update_estimates(x[:5]), "update_estimates with a short vector")
+    inc = pd.DataFrame(np.array([[1.0, 2.0, 3.0], [0.5, 0.25, -1.0]]), index=[0.0, 0.25], columns=GYRO)
+    cd = es.correct_increments(np.array([0.25, 0.25]), inc)
+    cs = es.correct_increments(0.25, inc.iloc[1])
+    if not isinstance(cd, pd.DataFrame) or not isinstance(cs, pd.Series) or \
+            np.abs(cd.values[1] - cs.values).max() > 1e-12:
+        bad.append("correct_increments DataFrame / Series forms disagree")
+    es.reset_estimates()
+    if np.any(es.get_estimates().values != 0) or not np.array_equal(es.transform, np.eye(3)):
+        bad.append("reset_estimates does not reset")
+    # Parameters: defaults, float intensities, shape errors, sensor types
+    p0 = Parameters()
+    if not np.array_equal(p0.transform, np.eye(3)) or np.any(p0.bias != 0) or np.any(p0.noise != 0) or \
+            np.any(p0.bias_walk != 0) or p0.data_frame is not None:
+        bad.append("Parameters() is not the identity")
+    pf = Parameters(noise=0.5, bias_walk=0.25, rng=RS([np.zeros((2, 3)), np.zeros((2, 3))]))
+    if not np.array_equal(pf.noise, [0.5] * 3) or not np.array_equal(pf.bias_walk, [0.25] * 3):
+        bad.append("float noise / bias_walk is not broadcast to the three axes")
+    raises(ValueError, lambda: Parameters(bias=[1.0, 2.0]), "bias of shape (2,)")
+    raises(ValueError, lambda: Parameters(transform=np.eye(2)), "transform of shape (2, 2)")
+    raises(ValueError, lambda: Parameters(bias=0.5), "scalar bias (floats are allowed for intensities only)")
+    raises(ValueError, lambda: pf.apply(inc, 'gyro'), "unknown sensor_type")
+    for ty in ('rate', 'increment'):
+        pz = Parameters(np.eye(3) + np.diag([0.25, 0, 0]), [0.5, 0, 0], rng=RS([np.zeros((2, 3))] * 2))
+        out = pz.apply(inc, ty)
+        if list(pz.data_frame.columns) != ['bias_x', 'sm_xx'] or np.shape(out.values) != (2, 3):
+            bad.append(f"Parameters.apply({ty}) basic case")
+    pm = Parameters.from_EstimationModel(eb, RS([np.ones((3, 3)), np.ones(3)]))
+    if not np.array_equal(pm.transform, np.eye(3)) or not np.array_equal(pm.bias, [1, 0, 2]):
+        bad.append("from_EstimationModel basic case")
+    bad += [f"{c}: {m_}" for c, m_ in imu_check(0)]
+    return bad
+
+
+# ----------------------------------------------------------------------------------------------
 # jobs (run in worker processes)
 
 def job_b(job):
@@ -736,7 +848,10 @@ def job_d(job):
 
 def run_job(job):
     try:
-        return dict(b=job_b, s=job_s, d=job_d)[job['kind']](job)
+        with linecov.LineCoverage(covered_functions()) as cov:
+            res = dict(b=job_b, s=job_s, d=job_d)[job['kind']](job)
+        res['hit'] = {k: sorted(v_) for k, v_ in cov.hit.items()}
+        return res
     except Exception:
         return dict(kind=job['kind'], idx=job['idx'], n=0, keys=[], samples=[], stats={}, hist={}, violations=[],
                     broken=[('harness job crashed', dict(tb=traceback.format_exc()[-2000:]))])
@@ -790,6 +905,13 @@ def check(r):
         return
     rng = random.Random(r.seed + 14)
     thorough = r.tier == 'thorough'
+    with linecov.LineCoverage(covered_functions()) as cov:
+        try:
+            for msg in corpus_checks():
+                r.broken('correspondence', 'fixed corpus (argument forms / validation)', msg)
+        except Exception:
+            r.broken('correspondence', 'fixed corpus crashed', traceback.format_exc()[-1500:])
+    r.case(('corpus',))
     jobs = []
     corners = corner_masks()
     if thorough:
@@ -813,6 +935,7 @@ def check(r):
     dist = dict(n_states_hist={}, ops={}, sim={}, dts={}, files=len(jobs))
     nb = nv = 0
     for res in sorted(results, key=lambda x: x['idx']):
+        cov.merge(res.get('hit', {}))
         for k in res['keys']:
             r.case(k)
         for s in res['samples']:
@@ -836,8 +959,19 @@ def check(r):
     r.coverage['distribution'] = dist
     r.coverage['masks'] = ("all 262144 masks + %d sampled" % len(heavy)) if thorough else ("%d sampled incl. 64 corners" % len(heavy))
     r.log(f"correspondence: {r.evaluations} cases, {nb} break(s); direct statements: {nv} violation(s)")
+    summ, missing = cov.report(allow=tuple(ALLOW))
+    r.coverage['code_lines'] = dict(functions=summ, allowed_unreached=ALLOW,
+                                    measured=("fixed corpus in the main process + every worker job "
+                                              "(sys.monitoring LINE events, hits merged)"))
+    tot = sum(v_['executable'] for v_ in summ.values())
+    got = sum(v_['executed'] for v_ in summ.values())
+    r.log(f"code lines: {got}/{tot} executable lines of {len(summ)} functions executed; "
+          f"unreached (not allowed): {len(missing)}")
+    if missing:
+        r.broken('correspondence', 'code line not exercised', missing)
     if thorough:
-        r.hygiene()
+        r.hygiene('Props/C14.v')
+        r.coqchk('Props/C14.v', norec=COQCHK_NOREC)
 
 
 def falsify(r):
